@@ -28,10 +28,12 @@ int main(int, char**) {
             l.extensions().add_extension(ext);
             if (check("ICMPv6", l, plen)) return 1;
         }
-        ICMP v4(ICMP::TIME_EXCEEDED);
+        for (int shape4 = 0; shape4 < 3; ++shape4) {
+        ICMP v4(shape4 == 0 ? ICMP::TIME_EXCEEDED : shape4 == 1 ? ICMP::TIMESTAMP_REQUEST : ICMP::ADDRESS_MASK_REQUEST);
         ICMPExtension ext(1, 1); ext.payload(ICMPExtension::payload_type(ep, ep + sizeof ep));
         v4.extensions().add_extension(ext);
         if (check("ICMP", v4, plen)) return 1;
+        }
     }
     printf("ok\n"); return 0;
 }
